@@ -80,7 +80,7 @@ try:
     meta = {"id": sid, "property": prop, "origin": "written by a sub-agent that saw only the property text and its own scratch worktree",
             "summary": notes.get("summary", ""), "why_breaks": notes.get("why_breaks", ""), "needs": notes.get("needs", ""),
             "files": touched, "confirmed": ran,
-            "how_to_run": "git -C /repo apply seeded/%s/patch.diff; /venv/bin/python seeded/%s/demo.py (cwd=/repo) must exit non-zero; git -C /repo checkout -- ." % (sid, sid)}
+            "how_to_run": "git -C /repo apply /verif/seeded/%s/patch.diff; (cd /repo && /venv/bin/python /verif/seeded/%s/demo.py) must exit non-zero; git -C /repo checkout -- ." % (sid, sid)}
     (dest / "meta.json").write_text(json.dumps(meta, indent=1))
 finally:
     subprocess.run(["git", "-C", "/repo", "worktree", "remove", "--force", str(wt)], capture_output=True)
